@@ -9,7 +9,12 @@ Local Open Scope Z_scope.
     transfer every account either keeps it or ends up unmarked. *)
 Definition metaR (m m' : gmap bytes account) : Prop :=
   forall k, (until (get_acc m' k) = until (get_acc m k) /\ parent (get_acc m' k) = parent (get_acc m k))
-            \/ until (get_acc m' k) = 0.
+            \/ parent (get_acc m' k) = [].
+
+Lemma is_lock_true a : is_lock a = true -> parent a <> [].
+Proof. unfold is_lock. destruct (parent a); [discriminate|discriminate]. Qed.
+Lemma is_lock_nil a : parent a = [] -> is_lock a = false.
+Proof. unfold is_lock. intros ->. reflexivity. Qed.
 
 Lemma metaR_refl m : metaR m m.
 Proof. intros k. left. auto. Qed.
@@ -57,7 +62,7 @@ Lemma epoch_visit_meta c e m ns x m' ns' :
 Proof.
   unfold epoch_visit. simpl. intros H.
   destruct (negb (hash_len x)); [injection H as <- <-; apply metaR_refl|].
-  destruct (until (get_acc m x) =? 0); [injection H as <- <-; apply metaR_refl|].
+  destruct (negb (is_lock (get_acc m x))); [injection H as <- <-; apply metaR_refl|].
   destruct (e >=? until (get_acc m x)); [|injection H as <- <-; apply metaR_refl].
   destruct (transfer c m x (parent (get_acc m x)) (bal (get_acc m x)) true
               (unlock_details e) false false) as [[[m2 r2] ns2]|] eqn:Et; simpl in H; [|discriminate].
@@ -80,7 +85,7 @@ Lemma bexec_meta c s o s' r ns k :
   bexec c s o = Halt (s', r, ns) ->
   (until (get_acc (accts s') k) = until (get_acc (accts s) k) /\
    parent (get_acc (accts s') k) = parent (get_acc (accts s) k))
-  \/ until (get_acc (accts s') k) = 0
+  \/ parent (get_acc (accts s') k) = []
   \/ (exists d f a u, o = Lock d f k a u /\ parent (get_acc (accts s') k) = f).
 Proof.
   intros H.
@@ -122,7 +127,7 @@ Lemma transfer_untouched c m f t a ir d fn tn m' r ns k :
 Proof. intros H Hf Ht. eapply transfer_frame; eauto. Qed.
 
 Definition tickI (m0 : gmap bytes account) (k : bytes) (m : gmap bytes account) : Prop :=
-  (forall x, until (get_acc m x) <> 0 ->
+  (forall x, parent (get_acc m x) <> [] ->
      until (get_acc m x) = until (get_acc m0 x) /\ parent (get_acc m x) = parent (get_acc m0 x)) /\
   m !! k = m0 !! k.
 
@@ -134,18 +139,19 @@ Proof.
   intros Hk Hp H [I1 I2]. pose proof (epoch_visit_meta _ _ _ _ _ _ _ H) as HM.
   split.
   { intros y Hy. destruct (HM y) as [[U P]|Z]; [|congruence].
-    rewrite U in Hy. destruct (I1 y Hy) as [U0 P0]. split; congruence. }
+    rewrite P in Hy. destruct (I1 y Hy) as [U0 P0]. split; congruence. }
   unfold epoch_visit in H. simpl in H.
   destruct (negb (hash_len x)) eqn:Ex; [injection H as <- <-; exact I2|].
-  destruct (until (get_acc m x) =? 0) eqn:Eu; [injection H as <- <-; exact I2|].
+  destruct (negb (is_lock (get_acc m x))) eqn:Eu; [injection H as <- <-; exact I2|].
   destruct (e >=? until (get_acc m x)) eqn:Ee; [|injection H as <- <-; exact I2].
   destruct (transfer c m x (parent (get_acc m x)) (bal (get_acc m x)) true
               (unlock_details e) false false) as [[[m2 r2] ns2]|] eqn:Et; simpl in H; [|discriminate].
   injection H as <- <-.
-  assert (Hu : until (get_acc m x) <> 0) by lia.
+  apply negb_false_iff in Eu.
+  assert (Hu : parent (get_acc m x) <> []) by (apply is_lock_true; exact Eu).
   destruct (I1 x Hu) as [U0 P0].
   assert (Hdx : due e m0 x = true).
-  { unfold due. rewrite <- U0. apply negb_false_iff in Ex. rewrite Ex, Eu, Ee. reflexivity. }
+  { unfold due. rewrite <- U0, <- (is_lock_parent _ _ P0). apply negb_false_iff in Ex. rewrite Ex, Eu, Ee. reflexivity. }
   rewrite <- I2. eapply transfer_untouched; [exact Et| |].
   - intros ->. congruence.
   - rewrite P0. intros E. symmetry in E. exact (Hp x Hdx E).
@@ -172,7 +178,7 @@ Qed.
 
 (** No marked account refunds to [l] (true when [l] is a fresh address). *)
 Definition norefund (l : bytes) (m : gmap bytes account) : Prop :=
-  forall k, until (get_acc m k) <> 0 -> parent (get_acc m k) <> l.
+  forall k, parent (get_acc m k) <> [] -> parent (get_acc m k) <> l.
 
 Lemma norefund_empty l : norefund l ∅.
 Proof. intros k H. exfalso. apply H. reflexivity. Qed.
@@ -256,11 +262,11 @@ Definition life_state (l : bytes) (b u : Z) (f : bytes) (s : bstate) (brn : Z) :
   accts s !! l = Some (mkAcc (b - brn) u f) \/ (accts s !! l = None /\ brn = b).
 
 Lemma life_step l u f b s co brn :
-  hash_len l = true -> u <> 0 ->
+  hash_len l = true ->
   norefund l (accts s) -> life_state l b u f s brn -> before_ok l u co = true ->
   life_state l b u f (fst (fst (bstep s co))) (brn + burned l s [co]).
 Proof.
-  intros Hl Hu HQ HS Hok. cbn [burned].
+  intros Hl HQ HS Hok. cbn [burned].
   destruct (bstep_cases s co) as [(s' & r & ns & He & Hb)|(_ & Hb)]; rewrite Hb; cbn [fst snd].
   2:{ destruct (snd co); try (rewrite Z.add_0_r; exact HS).
       rewrite andb_false_r. rewrite Z.add_0_r. exact HS. }
@@ -295,9 +301,9 @@ Proof.
     + unfold due. destruct HS as [HS|[HS _]].
       * rewrite (get_acc_some _ _ _ HS). cbn [until]. replace (e >=? u) with false by lia.
         rewrite andb_false_r. reflexivity.
-      * rewrite (get_acc_none _ _ HS). simpl. rewrite andb_false_r. reflexivity.
-    + intros d Hd. apply HQ. unfold due in Hd. destruct (until (get_acc (accts s) d) =? 0) eqn:E0; [|lia].
-      rewrite andb_false_r in Hd. discriminate.
+      * rewrite (get_acc_none _ _ HS). rewrite (is_lock_nil empty_acc eq_refl). rewrite andb_false_r. reflexivity.
+    + intros d Hd. apply HQ. unfold due in Hd. apply andb_true_iff in Hd as [Hd _].
+      apply andb_true_iff in Hd as [_ Hd]. apply is_lock_true. exact Hd.
 Qed.
 
 Lemma burned_cons l s co rest :
@@ -305,16 +311,16 @@ Lemma burned_cons l s co rest :
 Proof. cbn [burned]. destruct (bstep s co) as [[s' rv] ns]. cbn [fst]. lia. Qed.
 
 Lemma life_before_gen l u f b :
-  hash_len l = true -> u <> 0 ->
+  hash_len l = true ->
   forall ops s brn, norefund l (accts s) -> life_state l b u f s brn ->
     forallb (before_ok l u) ops = true ->
     norefund l (accts (bruns s ops)) /\ life_state l b u f (bruns s ops) (brn + burned l s ops).
 Proof.
-  intros Hl Hu. induction ops as [|co ops IH]; intros s brn HQ HS Hok.
+  intros Hl. induction ops as [|co ops IH]; intros s brn HQ HS Hok.
   - simpl. rewrite Z.add_0_r. auto.
   - cbn [forallb] in Hok. apply andb_true_iff in Hok as [Hc Hr].
     cbn [bruns fold_left]. rewrite burned_cons.
-    pose proof (life_step l u f b s co brn Hl Hu HQ HS Hc) as HS'.
+    pose proof (life_step l u f b s co brn Hl HQ HS Hc) as HS'.
     pose proof (norefund_step l s co (or_introl (before_after _ _ _ Hc)) HQ) as HQ'.
     destruct (IH _ _ HQ' HS' Hr) as [Q2 S2]. split; [exact Q2|].
     rewrite Z.add_assoc. exact S2.
@@ -324,14 +330,14 @@ Qed.
     what was locked minus what was burnt from it, with its expiry and owner
     intact — or it was deleted by a burn of everything that was left. *)
 Lemma life_before l u f b ops s :
-  hash_len l = true -> u <> 0 -> norefund l (accts s) ->
+  hash_len l = true -> norefund l (accts s) ->
   accts s !! l = Some (mkAcc b u f) -> forallb (before_ok l u) ops = true ->
   norefund l (accts (bruns s ops)) /\
   (accts (bruns s ops) !! l = Some (mkAcc (b - burned l s ops) u f) \/
    (accts (bruns s ops) !! l = None /\ burned l s ops = b)).
 Proof.
-  intros Hl Hu HQ HS Hok.
-  destruct (life_before_gen l u f b Hl Hu ops s 0 HQ) as [Q S]; [|exact Hok|].
+  intros Hl HQ HS Hok.
+  destruct (life_before_gen l u f b Hl ops s 0 HQ) as [Q S]; [|exact Hok|].
   - left. rewrite Z.sub_0_r. exact HS.
   - split; [exact Q|]. rewrite Z.add_0_l in S. exact S.
 Qed.
@@ -357,9 +363,9 @@ Proof.
     destruct (new_epoch c (accts s) e) as [[m ns0]|] eqn:En; simpl in He; [|discriminate].
     injection He as <- <- <-. simpl. rewrite <- HN.
     eapply tick_untouched; [exact En| |].
-    + unfold due. rewrite (get_acc_none _ _ HN). simpl. rewrite andb_false_r. reflexivity.
-    + intros d Hd. apply HQ. unfold due in Hd. destruct (until (get_acc (accts s) d) =? 0) eqn:E0; [|lia].
-      rewrite andb_false_r in Hd. discriminate.
+    + unfold due. rewrite (get_acc_none _ _ HN). rewrite (is_lock_nil empty_acc eq_refl). rewrite andb_false_r. reflexivity.
+    + intros d Hd. apply HQ. unfold due in Hd. apply andb_true_iff in Hd as [Hd _].
+      apply andb_true_iff in Hd as [_ Hd]. apply is_lock_true. exact Hd.
 Qed.
 
 (** Creating the lock keeps [norefund] (the new account refunds to [f <> l]). *)
